@@ -219,6 +219,8 @@ class Interp:
             w.clock_steps.extend(f.get('steps', [f.get('delta', -3600.0)]))
         elif k == 'export_io':
             w.fs.fault = f.get('how', 'ENOSPC')
+        elif k == 'int_noise':
+            w.int_noise = float(f.get('eps', 4e-10))
 
     def _disarm(self):
         w = self.w
@@ -226,6 +228,7 @@ class Interp:
         w.break_stdout_at = None
         w.clock_steps[:] = []
         w.fs.fault = None
+        w.int_noise = None
 
     def _solve(self, op, soc):
         m = self.env[op['m']]
